@@ -183,7 +183,8 @@ let () =
        let rec msgs = function
          | kind :: arg :: tl ->
            let m = (match kind with
-             | "list" -> Some (TList (hb arg)) | "mkdir" -> Some (TMkdir (hb arg))
+             | "list" -> Some (TList (hb arg, [])) | "mkdir" -> Some (TMkdir (hb arg))
+             | "uploadtrunc" -> Some (TUploadTrunc (hb arg)) | "teardown" -> Some TClose
              | "download" -> Some (TDownload (hb arg))
              | "upload" -> Some (TUpload (hb arg, true))
              | "uploaddata" -> Some (TUploadData false) | "uploaddatac" -> Some (TUploadData true)
@@ -197,27 +198,33 @@ let () =
          | TStat p -> "fs stat " ^ hex_of_bytes p | TOpendir p -> "fs opendir " ^ hex_of_bytes p
          | TOpenR p -> "fs openr " ^ hex_of_bytes p | TCreat p -> "fs creat " ^ hex_of_bytes p
          | TUtime p -> "fs utime " ^ hex_of_bytes p | TUnlink p -> "fs unlink " ^ hex_of_bytes p
-         | TMkdirOp p -> "fs mkdir " ^ hex_of_bytes p in
+         | TMkdirOp p -> "fs mkdir " ^ hex_of_bytes p
+         | TStatEntry (d, n) -> "fs stat " ^ hex_of_bytes d ^ "2f" ^ hex_of_bytes n
+         | TOverflow -> "overflow" in
        let gate = tight_gate true (en = "1") (vo = "1") in
-       let sta = ref tstate0 and stb = ref tstate0 in
+       (* variant 0 = the tree; 1 = with the proposed notes/fix_C19_4/5.diff; 2 = the flow before 7654ac8 *)
+       let vs = [| v_tight_tree; v_tight_fixed; v_tight_prefix |] in
+       let sts = Array.make 3 tstate0 in
        List.iter (fun (kind, m) ->
            print_endline ("m " ^ kind);
            match m with
            | None -> ()
-           | Some m0 when gate ->
+           | Some m0 ->
              (* the creat() result applies to a request that reaches creat in the tree variant *)
              let m1 = (match m0 with
                  | TUpload (n, _) ->
-                   let (ops, _) = tight_step v_tight_tree ftproot !sta (TUpload (n, true)) in
-                   if ops <> [] then TUpload (n, next_creat ()) else m0
+                   let (ops, _) = tight_step_g vs.(0) ftproot sts.(0) (gate, TUpload (n, true)) in
+                   if List.exists (function TCreat _ -> true | _ -> false) ops then TUpload (n, next_creat ()) else m0
                  | x -> x) in
-             let (oa, sa) = tight_step v_tight_tree ftproot !sta m1 in
-             let (ob, sb) = tight_step v_tight_prefix ftproot !stb m1 in
-             sta := sa; stb := sb;
-             let la = List.map op_line oa and lb = List.map op_line ob in
-             List.iter print_endline la;
-             if la <> lb then (print_endline "alt1 -"; List.iter (fun l -> print_endline ("alt1 " ^ l)) lb)
-           | Some _ -> ()) (msgs pairs)
+             let outs = Array.init 3 (fun k ->
+                 let (o, s') = tight_step_g vs.(k) ftproot sts.(k) (gate, m1) in
+                 sts.(k) <- s'; List.map op_line o) in
+             List.iter print_endline outs.(0);
+             for k = 1 to 2 do
+               if outs.(k) <> outs.(0) then begin
+                 print_endline (Printf.sprintf "alt%d -" k);
+                 List.iter (fun l -> print_endline (Printf.sprintf "alt%d %s" k l)) outs.(k) end
+             done) (msgs pairs)
      | ["translate"; hm; p] ->
        (match translate_pure (if hm = "none" then None else Some (hb hm)) (hb p) (z_of_int 260) with
         | None -> print_endline "translate none"
